@@ -8,6 +8,7 @@ Worker:  python -m vlib.runner <ID> --worker <shard> <nshards> <outfile> --tier 
 from __future__ import annotations
 
 import argparse
+import collections
 import hashlib
 import importlib
 import json
@@ -20,6 +21,7 @@ import traceback
 from vlib import env
 
 VERIF_DIR = env.VERIF_DIR
+HISTORY_CAP = 3000
 
 
 class Violation(Exception):
@@ -99,6 +101,9 @@ def run_sub_in_worker(spec, sub: Sub, tier: str, seed: int, shard: int, nshards:
         return res
     nt_seen: set[str] = set()
     state = {'last': None}
+    # what this process executed before (most recent HISTORY_CAP cases): a failure that needs earlier calls of the
+    # same process (state kept by the library between calls) is replayed together with the part of it that matters
+    history: collections.deque = collections.deque(maxlen=HISTORY_CAP)
     t0 = time.time()
 
     def account(case, info):
@@ -119,6 +124,7 @@ def run_sub_in_worker(spec, sub: Sub, tier: str, seed: int, shard: int, nshards:
                                            'classes': sorted(info.get('cls', ()))})
 
     def run_case(case):
+        history.append(case)
         try:
             info = sub.check(case)
         except Violation as v:
@@ -127,7 +133,7 @@ def run_sub_in_worker(spec, sub: Sub, tier: str, seed: int, shard: int, nshards:
                 res['known_hits'][kf] = res['known_hits'].get(kf, 0) + 1
                 res['evaluations'] += 1
                 return
-            state['last'] = (case, v.bucket, v.message)
+            state['last'] = (case, v.bucket, v.message, list(history)[:-1])
             raise
         except (hypothesis.errors.HypothesisException, KeyboardInterrupt):
             raise
@@ -143,7 +149,7 @@ def run_sub_in_worker(spec, sub: Sub, tier: str, seed: int, shard: int, nshards:
                 res['known_hits'][kf] = res['known_hits'].get(kf, 0) + 1
                 res['evaluations'] += 1
                 return
-            state['last'] = (case, v.bucket, v.message)
+            state['last'] = (case, v.bucket, v.message, list(history)[:-1])
             raise v from e
         account(case, info)
 
@@ -175,7 +181,7 @@ def run_sub_in_worker(spec, sub: Sub, tier: str, seed: int, shard: int, nshards:
                         res['known_hits'][kf] = res['known_hits'].get(kf, 0) + 1
                         res['evaluations'] += 1
                         return
-                    state['last'] = (case, v.bucket, v.message)
+                    state['last'] = (case, v.bucket, v.message, None)
                     raise v
 
             machine = sub.stateful(tier, Hooks)
@@ -193,15 +199,15 @@ def run_sub_in_worker(spec, sub: Sub, tier: str, seed: int, shard: int, nshards:
 
             test()
     except Violation:
-        case, bucket, message = state['last']
-        res['violation'] = {'sub': sub.name, 'bucket': bucket, 'message': message, 'case': case}
+        case, bucket, message, hist = state['last']
+        res['violation'] = {'sub': sub.name, 'bucket': bucket, 'message': message, 'case': case, 'history': hist}
     except BaseException as e:  # noqa
         if state['last'] is not None and isinstance(e.__cause__ or e, Violation):
-            case, bucket, message = state['last']
-            res['violation'] = {'sub': sub.name, 'bucket': bucket, 'message': message, 'case': case}
+            case, bucket, message, hist = state['last']
+            res['violation'] = {'sub': sub.name, 'bucket': bucket, 'message': message, 'case': case, 'history': hist}
         elif state['last'] is not None and 'Flaky' in type(e).__name__:
-            case, bucket, message = state['last']
-            res['violation'] = {'sub': sub.name, 'bucket': bucket,
+            case, bucket, message, hist = state['last']
+            res['violation'] = {'sub': sub.name, 'bucket': bucket, 'history': hist,
                                 'message': message + ' (reported flaky by hypothesis)', 'case': case}
         else:
             res['error'] = ''.join(traceback.format_exception(type(e), e, e.__traceback__))[-6000:]
@@ -276,6 +282,12 @@ def replay_file(spec, path: str) -> tuple[str, str]:
         return 'pass', ''
     if sub is None:
         return 'error', f'unknown sub-check {rec["sub"]}'
+    for earlier in rec.get('history') or []:
+        # what the failing process had executed before; outcomes of these are not judged here
+        try:
+            sub.check(earlier)
+        except BaseException:  # noqa
+            pass
     try:
         sub.check(rec['case'])
     except Violation as v:
@@ -307,6 +319,60 @@ def replay_main(pid: str, path: str) -> int:
         return 2
     print(f'replay passed: property={pid} {path}')
     return 0
+
+
+def _write_replay(path, rec, history):
+    with open(path, 'w') as f:
+        json.dump(dict(rec, history=history) if history else rec, f, indent=1, default=str)
+
+
+def _replay_reproduces(pid, path) -> bool:
+    r = subprocess.run([sys.executable, '-B', '-m', 'vlib.main', pid, '--replay', path], cwd=VERIF_DIR,
+                       stdout=subprocess.PIPE, stderr=subprocess.STDOUT, env=dict(os.environ))
+    return r.returncode == 1
+
+
+def settle_replay(pid, path, rec, history, budget=70) -> str:
+    """Writes the replay file and makes sure it fails in a fresh process. A failure that needs calls the process
+    made earlier (library state kept between calls) gets the smallest part of that history found by delta debugging."""
+    _write_replay(path, rec, None)
+    if not history or _replay_reproduces(pid, path):
+        return ''
+    runs = [0]
+
+    def fails(h):
+        runs[0] += 1
+        _write_replay(path, rec, h)
+        return _replay_reproduces(pid, path)
+
+    if not fails(history):
+        _write_replay(path, rec, history[-200:])
+        return '[the saved case passes in a fresh process, also after the earlier cases of its process: state-dependent]'
+    cur, n = list(history), 2
+    while len(cur) >= 2 and runs[0] < budget:
+        size = max(1, len(cur) // n)
+        chunks = [cur[i:i + size] for i in range(0, len(cur), size)]
+        reduced = False
+        for i, ch in enumerate(chunks):           # a single chunk
+            if runs[0] >= budget:
+                break
+            if len(ch) < len(cur) and fails(ch):
+                cur, n, reduced = ch, 2, True
+                break
+        if not reduced:
+            for i in range(len(chunks)):          # a complement
+                if runs[0] >= budget:
+                    break
+                comp = [x for j, ch in enumerate(chunks) if j != i for x in ch]
+                if len(comp) < len(cur) and comp and fails(comp):
+                    cur, n, reduced = comp, max(n - 1, 2), True
+                    break
+        if not reduced:
+            if n >= len(cur):
+                break
+            n = min(len(cur), n * 2)
+    _write_replay(path, rec, cur)
+    return f'[needs {len(cur)} earlier case(s) of the same process, saved in the replay file]'
 
 
 # ---------------------------------------------------------------------------
@@ -461,11 +527,12 @@ def parent_main(pid: str, tier: str) -> int:
         else:
             safe = ''.join(ch if ch.isalnum() else '_' for ch in f'{v["sub"]}-{v["bucket"]}')[:80]
             path = os.path.join(VERIF_DIR, 'replays', f'{pid}-{safe}-{seed}.json')
-            with open(path, 'w') as f:
-                json.dump({'property': pid, 'sub': v['sub'], 'bucket': v['bucket'],
-                           'message': v['message'], 'case': v['case'],
-                           'hashseed': v.get('hashseed', 0), 'seed': seed, 'tier': tier}, f,
-                          indent=1, default=str)
+            rec = {'property': pid, 'sub': v['sub'], 'bucket': v['bucket'],
+                   'message': v['message'], 'case': v['case'],
+                   'hashseed': v.get('hashseed', 0), 'seed': seed, 'tier': tier}
+            note = settle_replay(pid, path, rec, v.get('history'))
+            if note:
+                v['message'] = v['message'] + ' ' + note
         replay_paths.append(path)
         lines.append(f'VIOLATION property={pid} replay={path}')
         lines.append(f'  sub-check {v["sub"]} bucket {v["bucket"]}: {str(v["message"])[:600]}')
